@@ -85,6 +85,7 @@ let run_dns () =
            let target = if w = "poll" then v else
              (match dns_poll_at !st with Some p -> int_of_z p + v | None -> !now + 1_000_000) in
            now := max !now target;
+           let hop = dns_tx_hop !st in
            let (s', o) = dns_step c !st (EvPoll (z_of_int !now)) in
            st := s';
            (match o with
@@ -99,11 +100,24 @@ let run_dns () =
                        if Hashtbl.mem started j && txid_of j = i && port_of j = sport then k := Some j done
                    | None -> ());
                   let d = (match !k with Some j -> xor_id pl (txid_of j) | None -> pl) in
-                  Printf.printf "tx k=%s dst=%s dport=%s dns=%s\n"
+                  Printf.printf "tx k=%s dst=%s dport=%s hop=%s dns=%s\n"
                     (match !k with Some j -> string_of_int j | None -> "?")
-                    (hex_of_bytes tx.tx_dst_addr) (sz tx.tx_dst_port) (hex_of_bytes d)) txs;
+                    (hex_of_bytes tx.tx_dst_addr) (sz tx.tx_dst_port) (sz hop) (hex_of_bytes d)) txs;
                 Printf.printf "poll n=%d%s\n" (List.length txs) (if hang then " HANG" else "")
             | _ -> print_string "bad PANIC\n")
+       | ["servers"; l] ->
+           let srv = (match l with "-" | "" -> [] | x -> List.map bytes_of_hex (String.split_on_char ',' x)) in
+           let (s', _) = dns_step c !st (EvServers srv) in
+           st := s';
+           print_string "servers\n"
+       | ["hop"; v] ->
+           let h = if v = "none" then None else Some (zs v) in
+           let (s', o) = dns_step c !st (EvHop h) in
+           st := s';
+           let g = (match dns_hop_limit !st with Some x -> sz x | None -> "none") in
+           (match o with
+            | ObHop (Ok _) -> Printf.printf "hop ok get=%s\n" g
+            | _ -> Printf.printf "hop PANIC get=%s\n" g)
        | "rsp" :: _ ->
            let k = int_of_string (kv ws "k") and pk = int_of_string (kv ws "pk") in
            let pd = int_of_string (kv ws "pd") in
